@@ -2556,7 +2556,7 @@ type ColumnDef struct {
 //	DEFAULT ({{.Expr | sql}})
 type ColumnDefaultExpr struct {
 	// pos = Default
-	// end = Rparen
+	// end = Rparen + 1
 
 	Default token.Pos // position of "DEFAULT" keyword
 	Rparen  token.Pos // position of ")"
